@@ -342,7 +342,8 @@ pub fn run(ctx: &Ctx) -> i32 {
         }
       }
       Job::Class(d) => {
-        let cells = class_cells(*d);
+        let mut cells = class_cells(*d);
+        cells.extend(carry_cells(*d, false));
         for &h in &cells {
           part.stratum("border-class-cells", 1, 150);
           if let Some(v) = check_cell(*d, h, &mut part) {
